@@ -853,6 +853,12 @@ if not chk.args.no_proofs or os.environ.get("VERIF_C16_COQ_SHARD"):
                       {"history": jsonable({k: h[k] for k in ("probe", "ori", "ops")}), "driver_line": history_line(h),
                        "correspondence": "Model.Probe.run_ops NumF (vm_compute)"}, failing_input_found=False)
 
+# ---- the glue model of the public functions (Model files added later, see manifest text) tied to the library on every run:
+#      inputs generated here, the library run on them, the model evaluated on the same inputs by vm_compute inside coqc
+import ties.tie_C16 as _tie_glue  # noqa: E402
+_tie_n = _tie_glue.run(chk, arim, rng, Q)
+chk.cov["glue_model_tie_comparisons"] = int(_tie_n or 0)
+
 chk.finish(
     evaluations=evaluations,
     distinct_nontrivial=len(nontrivial),
